@@ -6,7 +6,7 @@ import vlib
 
 TYPES = [1, 2, 3, 0x10, 0x11, 0x20, 0x21, 0x22, 0x23, 0x24, 0, 5, 0x30, 0x3F]
 JSON_TYPES = (0x10, 0x11)
-LENS = [0, 0, 1, 2, 3, 4, 5, 6, 7, 255, 256, 257, 700]
+LENS = [0, 0, 1, 2, 3, 4, 5, 6, 7, 255, 256, 257, 700, 1023, 1024, 1025, 2500]
 
 
 def rand_body(rng, n):
@@ -26,7 +26,7 @@ def rand_str(rng, n):
 def rand_pkt(rng, maxlen=900):
     ty = rng.choice(TYPES)
     comp = rng.random() < 0.35
-    p = {"ty": ty, "compress": comp, "body": ""}
+    p = {"ty": ty, "compress": comp, "body": "", "rate": rng.choice([0, 0, 0, 64 << 20, 1 << 30])}
     if ty in JSON_TYPES:
         p["cmd"] = {"CommandType": rng.randrange(256), "CommandId": rand_str(rng, rng.randrange(8)),
                     "Token": rand_str(rng, rng.randrange(4)), "SenderId": rand_str(rng, rng.randrange(4)),
@@ -72,6 +72,19 @@ def ws_cases(rng, n_seq):
                  [rng.randrange(2, 40) for _ in range(approx)]]
         for side in ("server", "client", "transport"):
             out.append({"mode": "ws", "side": side, "pkts": pk, "cuts": rng.choice(parts)})
+    return out
+
+
+def concurrent_writer_cases(rng, n):
+    """two WritePacket callers on one processor; A parked before its 1st/2nd/3rd transport write, B = heartbeat or small packet"""
+    out = []
+    for _ in range(n):
+        a = rand_pkt(rng, 200)
+        while a["ty"] & 0x3F == 3:
+            a = rand_pkt(rng, 200)
+        b = rng.choice([{"ty": 3, "compress": False, "body": "", "rate": 0}, {"ty": 0x43, "compress": False, "body": "", "rate": 0},
+                        {"ty": 0x23, "compress": False, "body": "", "rate": 0}, rand_pkt(rng, 30)])
+        out.append({"mode": "cw", "pkts": [a, b], "cuts": [], "park": rng.choice([1, 2, 2, 3])})
     return out
 
 
@@ -138,6 +151,8 @@ def case_value(c, o):
     pk = None
     if c["mode"] in ("pk", "ws"):
         pk = [[[p["compress"], p["ty"], hb(body)] for p, body in zip(c["pkts"], o["bodies"])]]
+    if c["mode"] == "cw":
+        c = dict(c, cuts=[])
     opt = lambda x: [] if x is None else [hb(x)]
     return [pk, hb(o["wire"]), list(c["cuts"]),
             [[hb(a), hb(b)] for a, b in (o.get("defl") or [])],
@@ -157,6 +172,8 @@ def shrink(binary, case):
     cur = json.loads(json.dumps(case))
     for _ in range(40):
         changed = False
+        if cur["mode"] == "cw":
+            break
         if cur["mode"] in ("pk", "ws"):
             for i in range(len(cur["pkts"])):
                 if len(cur["pkts"]) > 1:
@@ -212,8 +229,9 @@ def run(ctx, only_cases=None):
         cases += gen_cases(ctx, 3000 if thorough else 300, 0)
         cases += header_straddle_cases(ctx.rng)
         cases += ws_cases(ctx.rng, 120 if thorough else 15)
+        cases += concurrent_writer_cases(ctx.rng, 200 if thorough else 24)
     outs = vlib.run_harness(binary, cases, timeout=900)
-    wires = [o["wire"] for c, o in zip(cases, outs) if c["mode"] in ("pk", "ws")][:: (2 if thorough else 6)]
+    wires = [o["wire"] for c, o in zip(cases, outs) if c["mode"] in ("pk", "ws") and o.get("wire")][:: (2 if thorough else 6)]
     raw = raw_mutations(ctx, wires, 12 if thorough else 6) if only_cases is None else []
     outs += vlib.run_harness(binary, raw, timeout=900) if raw else []
     cases += raw
@@ -228,7 +246,7 @@ def run(ctx, only_cases=None):
             if nfail <= 3:
                 small = shrink(binary, c)
                 so = vlib.run_harness(binary, [small])[0]
-                kind = {"pk": "roundtrip", "ws": "roundtrip-websocket-%s" % c.get("side")}.get(c["mode"], "chunk-independence")
+                kind = {"pk": "roundtrip", "ws": "roundtrip-websocket-%s" % c.get("side"), "cw": "concurrent-writers"}.get(c["mode"], "chunk-independence")
                 ctx.violation("%s" % kind, "real StreamProcessor: %s" % so["prop_msg"],
                               {"case": small, "observed": so["obs"], "wire": so.get("wire")})
     # (ii) model vs implementation
@@ -262,7 +280,8 @@ def run(ctx, only_cases=None):
         oks = sum(1 for x in o["obs"] if x["ok"])
         if oks >= 1 and c["cuts"] and len(o["wire"]) > 12:
             nontrivial.add(h)
-    dist = {"pk": sum(1 for c in cases if c["mode"] == "pk"), "websocket_adapter": sum(1 for c in cases if c["mode"] == "ws"), "raw_malformed": len(raw), "big_go_only": len(big),
+    dist = {"pk": sum(1 for c in cases if c["mode"] == "pk"), "websocket_adapter": sum(1 for c in cases if c["mode"] == "ws"), "concurrent_writers": sum(1 for c in cases if c["mode"] == "cw"),
+            "rate_limited_packets": sum(1 for c in cases for p in c.get("pkts", []) if p.get("rate")), "raw_malformed": len(raw), "big_go_only": len(big),
             "packets_total": sum(len(c.get("pkts", [])) for c in cases),
             "compressed_packets": sum(1 for c in cases for p in c.get("pkts", []) if p["compress"]),
             "json_packets": sum(1 for c in cases for p in c.get("pkts", []) if "cmd" in p),
@@ -286,7 +305,7 @@ def run(ctx, only_cases=None):
     ctx.assumptions += ["Go compress/gzip: inflate(deflate b) = b (hypothesis of C01_roundtrip_any_chunking; exercised by the run)",
                         "encoding/json round-trips packet.CommandPacket (exercised by the run)",
                         "io.Reader contract: a Read returns n>0 or an error (chunk oracle never returns (0,nil))",
-                        "mutual exclusion of the two StreamProcessor mutexes is not modelled (one ReadPacket is atomic)"]
+                        "writeLock exclusion is modelled (Model/FramingLock.v) and exercised by the gated concurrent-writer cases; readLock: one ReadPacket is atomic in the model"]
     if broken is not None:
         raise broken
 
